@@ -51,6 +51,7 @@ def unhex(s):
 def strace_log(mode, workdir):
     """Runs the writer under strace; returns list of ops on the target file: ('w', offset, bytes) / ('t', length)."""
     target = os.path.join(workdir, "target.hdf5")
+    _precreate(mode, target)
     log = os.path.join(workdir, "strace.log")
     cmd = ["strace", "-f", "-y", "-xx", "-s", "100000000", "-e", "trace=pwrite64,write,ftruncate", "-o", log,
            PY, WRITER, mode, target]
@@ -176,8 +177,15 @@ def _read_chunk(args):
     return read_files(*args)
 
 
+def _precreate(mode, fname):
+    """export_over: the target already exists (an older complete file written by an undisturbed writer)."""
+    if mode == "export_over" and not os.path.exists(fname):
+        subprocess.run([PY, WRITER, "export", fname], env=child_env(), capture_output=True, text=True, timeout=600)
+
+
 def _run_writer(args):
     mode, die_at, die_mode, fname = args
+    _precreate(mode, fname)
     r = subprocess.run([PY, WRITER, mode, fname], env=child_env({"DIE_AT": die_at, "DIE_MODE": die_mode}),
                        capture_output=True, text=True, timeout=600)
     return r.returncode
@@ -185,6 +193,7 @@ def _run_writer(args):
 
 def _count_fileops(mode, work):
     f = os.path.join(work, "count.hdf5")
+    _precreate(mode, f)
     r = subprocess.run([PY, WRITER, mode, f], env=child_env(), capture_output=True, text=True, timeout=600)
     m = re.search(r"WRITER-DONE calls (\d+)", r.stdout)
     os.remove(f)
@@ -362,7 +371,7 @@ def run(tier, seed):
     evals = 0
     cov = {}
     keys = set()
-    for mode in ("export", "pttempo"):
+    for mode in (("export", "pttempo") if tier == "quick" else ("export", "pttempo", "export8", "export_over")):
         h = hard_part(mode, None)
         o = orderly_part(mode)
         evals += h["L"] + 1 + h["fileops"] + 1 + o["points"]
